@@ -37,8 +37,14 @@ class Layout:
     cfg_format = "bumpver.toml"      # which file holds the configuration (bumpver.toml / pyproject.toml / setup.cfg) ...
     cfg_variant = 0                  # ... and what other tools left in that file before it
 
+    cfg_glob = False                 # a glob entry (*.toml / *.cfg) covers the config file itself, with a pattern for a second occurrence in it
+
     def config_text(self, commit=False, extra=None):
-        return project.config_file(self.cfg_format, self.old_version, self.vp, self.entries, commit=commit, tag=False, push=False, extra=extra, variant=self.cfg_variant)[1]
+        entries = list(self.entries)
+        if self.cfg_glob:
+            entries.append(("*" + os.path.splitext(self.cfg_format)[1], ["note: {version}"]))
+        text = project.config_file(self.cfg_format, self.old_version, self.vp, entries, commit=commit, tag=False, push=False, extra=extra, variant=self.cfg_variant)[1]
+        return text + ("\n# note: %s\n" % self.old_version if self.cfg_glob else "")
 
     def materialize(self, root, vcs=None, commit=False, extra=None):
         proj = project.Project(root, vcs=vcs)
@@ -175,6 +181,7 @@ def generate(rng, hostile=False, regimes=("lf", "crlf", "cr", "mixed"), max_file
     if not legacy and rng.random() < cfgformats:
         lay.cfg_format = rng.choice(["setup.cfg", "pyproject.toml"])
         lay.cfg_variant = rng.randrange(3)
+    lay.cfg_glob = (not legacy) and rng.random() < 0.12
     lay.unconfigured = {"NOTES.txt": "notes about %s\n" % old, ".hidden": old + "\r\n", "src/other.py": "# %s\n" % old}
     return lay
 
@@ -195,7 +202,7 @@ def file_events(lay, before, after, exit_code, new_version, expect_ok=True):
             pats.append(glue.parse_pattern(v2patterns.normalize_pattern(lay.vp, raw), file_pattern=True))
         try:
             old = before[name].decode("utf-8")
-            new = after[name].decode("utf-8")
+            new = after[name].decode("utf-8", "replace")          # a result that is not UTF-8 any more must not escape the comparison
         except (KeyError, UnicodeDecodeError):
             continue
         evs.append(dict(ev="rewrite", old=glue.cp(old), new=glue.cp(new), ok=exit_code == 0, pats=pats, v=newv,
